@@ -59,3 +59,14 @@ pub trait GraphLike {
     fn remove_vertex(&mut self, v: V);
     fn vertex_vec(&self) -> Vec<V>;
 }
+
+/// control: index before bound test in one && chain
+pub fn plug_inputs_bad(inputs: &Vec<V>, plug: &[u8]) -> usize {
+    let mut n = 0;
+    for (i, &v) in inputs.iter().enumerate() {
+        if plug[i] != 0 && i < plug.len() {
+            n += 1;
+        }
+    }
+    n
+}
